@@ -6,7 +6,9 @@
                         `RsjProofs/Toml.lean`) into exactly the statements `tableStmts`
                         (`RsjProofs/TomlSem.lean`), with the fuel `readToml` supplies;
   `readToml_manifest`   hence `readToml` of the written text is the table itself, fields
-                        in the order `normT` (plain fields, then sub-tables).
+                        in the order `normT` (plain fields, then sub-tables), numbers
+                        in the writer's spelling (`numsF`: `.0` after integer tokens of
+                        magnitude ≥ 2^63).
 
   Hypotheses: the indent consists of TOML whitespace, numbers are number tokens and
   objects have pairwise distinct keys (`ValOK`), there is no `null` (the writer fails
@@ -21,6 +23,7 @@
   empty or starts with a header).
 -/
 import RsjProofs.TomlRoundtripVal
+import RsjProofs.TomlNums
 namespace Rsj.Toml
 open Rsj.Json
 
@@ -670,11 +673,14 @@ end
     then sub-tables). -/
 theorem readToml_manifest (ind : Str) (hi : IndOK ind) (fs : List (Str × JVal))
     (hv : ValOK (.obj fs)) (hn : hasNullF fs = false) :
-    ∃ text, manifestTomlEx ind (.obj fs) = .ok text ∧ readToml text = some (.obj (normT fs)) := by
-  refine ⟨tableP ind false [] fs, ?_, ?_⟩
+    ∃ text, manifestTomlEx ind (.obj fs) = .ok text ∧ readToml text = some (.obj (normT (numsF fs))) := by
+  have hv' : ValOK (.obj (numsF fs)) := by
+    have := valOK_numsV (.obj fs) hv; rwa [numsV] at this
+  have hn' : hasNullF (numsF fs) = false := by rw [hasNullF_numsF, hn]
+  refine ⟨tableP ind false [] (numsF fs), ?_, ?_⟩
   · rw [manifestTomlEx_obj, hn]; rfl
-  · rw [readToml, parseStmts_tableP ind hi fs hv hn]
-    exact docValue_tableStmts fs (distinct_of_valOK _ hv)
+  · rw [readToml, parseStmts_tableP ind hi (numsF fs) hv' hn']
+    exact docValue_tableStmts (numsF fs) (distinct_of_valOK _ hv')
 
 end Rsj.Toml
 
